@@ -18,7 +18,7 @@ Conventions
   (`Rat` in the driver, any commutative ring in the proofs).  Only core classes are used: `Add Sub Mul NatCast IntCast`
   (+ `Div` for the elimination formula, `DecidableEq α` where the code compares with `0`).
 * A Python `dict`/`OrderedDict` is an association list in insertion order; the dictionary operations used by the code
-  (`d.get(k, 0)`, `k in d`, `d[k] = v`, `d[k] += v`) are `dget?/dgetD/dmem/dset/dacc` below.  A Python dict has unique keys;
+  (`d.get(k, 0)`, `k in d`, `d[k] = v`, `d[k] = d[k] + v`) are `dget?/dgetD/dmem/dset/dacc` below.  A Python dict has unique keys;
   the functions are total on arbitrary lists (the first entry of a key wins) and the drivers reject duplicate keys.
 * Stoichiometric coefficients are natural numbers: `Reaction.check_all_positive` / `check_all_integral` (default checks)
   reject anything else, and an exponent must be a natural number for `c ** ν` to stay inside a ring.
@@ -57,7 +57,7 @@ def dset : List (σ × β) → σ → β → List (σ × β)
   | [], k, v => [(k, v)]
   | (k', v') :: t, k, v => if k' = k then (k', v) :: t else (k', v') :: dset t k v
 
-/-- `if k not in d: d[k] = v` / `else: d[k] += v`  (the accumulation of `ReactionSystem.rates`) -/
+/-- `if k not in d: d[k] = v` / `else: d[k] = d[k] + v`  (the accumulation of `ReactionSystem.rates`; written without `+=` since fix b24923c) -/
 def dacc [Add β] : List (σ × β) → σ → β → List (σ × β)
   | [], k, v => [(k, v)]
   | (k', v') :: t, k, v => if k' = k then (k', v' + v) :: t else (k', v') :: dacc t k v
@@ -149,7 +149,7 @@ end Stoich
 section Rates
 variable {σ α : Type} [DecidableEq σ] [Add α] [Sub α] [Mul α] [NatCast α] [IntCast α]
 
-/-- `MassAction.active_conc_prod` (rates.py:191-195): `result = 1; for k, v in reaction.reac.items(): result *= variables[k] ** v`.
+/-- `MassAction.active_conc_prod` (rates.py:191-195): `result = 1; for k, v in reaction.reac.items(): result = result * variables[k] ** v` (no in-place arithmetic since fix b24923c).
     Only `reac` is read: inactive reactants and all products never enter. -/
 def activeConcProd (vars : σ → α) (r : Reaction σ α) : α :=
   r.reac.foldl (fun acc kv => acc * Num.npow (vars kv.1) kv.2) ((1 : Nat) : α)
